@@ -309,6 +309,12 @@ func (e *executor) codec(t []string) (string, bool) {
 		m := e.msgs[atoi(t[1])]
 		m.WriteAttributes()
 		return e.dumpS(atoi(t[1])), true
+	case t[0] == "DROPATTR" && len(t) == 3: // the caller edits the attribute list of a decoded message (then re-encodes)
+		m := e.msgs[atoi(t[1])]
+		if k := atoi(t[2]); k < len(m.Attributes) {
+			m.Attributes = append(m.Attributes[:k], m.Attributes[k+1:]...)
+		}
+		return e.dumpS(atoi(t[1])), true
 	case t[0] == "ENCODE" && len(t) == 2:
 		m := e.msgs[atoi(t[1])]
 		m.Encode()
